@@ -104,7 +104,7 @@ func c10RunQuotaPart(env *mc.Env, tree *c10Tree) {
 		node := &corev1.Node{ObjectMeta: metav1.ObjectMeta{Name: "node"}, Status: corev1.NodeStatus{Capacity: corev1.ResourceList{corev1.ResourceCPU: *resource.NewQuantity(int64(c.N), resource.DecimalSI)}}}
 		ex := &c10Exec{}
 		r := &CPUSuppress{executor: ex, cgroupReader: &c10Reader{quota: c.Current}, suppressPolicyStatuses: map[string]suppressPolicyStatus{}}
-		ps := mc.Guard(func() { r.adjustByCfsQuota(resource.NewMilliQuantity(c.BudgetMilli, resource.DecimalSI), node) })
+		ps := c10Guard(func() { r.adjustByCfsQuota(resource.NewMilliQuantity(c.BudgetMilli, resource.DecimalSI), node) })
 		if ps != "" {
 			res.Violate(mc.Violation{Key: "C10|quota|panic|" + c10PanicKind(ps), What: "agent crash: adjustByCfsQuota panicked: " + c10PanicHead(ps), Replay: c})
 			return
